@@ -108,6 +108,7 @@ type runner struct {
 	solo    []int // consecutive steps of this thread
 	stuck   []bool
 	site    []int // site the thread is parked at (0 = between calls / finished)
+	lastCount int
 	addsIn  int
 	sum     int // sum of the deltas of all Add calls made so far
 	pre     int
@@ -253,13 +254,23 @@ func (r *runner) stepThread(t int) {
 		r.stuck[u] = r.inCall[u] && (r.inSteps[u] >= totalBudget ||
 			(r.solo[u] >= soloBudget && r.inSteps[u] >= soloBudget))
 	}
-	it.Count = r.wg.Count()
+	// closed-ness first (a non-blocking receive has no effect on the group), then Count().
+	// Count() is a call of the API: in the modelled code it is one load (part of the proved
+	// check-list), but in a source whose tie is broken it may DO something (seeded/C02-32: every
+	// operation flushes a mailbox of channels to close - an observer calling Count() after every
+	// step repaired the state before the defect could show).  With -sparseobs Count() is only
+	// called where the property speaks about it: when no Add is in flight; elsewhere the item
+	// carries the last value seen.
 	it.Closed = []int{}
 	for i, ch := range r.chans {
 		if isClosed(ch) {
 			it.Closed = append(it.Closed, i)
 		}
 	}
+	if !sparseObs || r.addsIn == 0 {
+		r.lastCount = r.wg.Count()
+	}
+	it.Count = r.lastCount
 	r.obs = append(r.obs, it)
 	r.sched = append(r.sched, t)
 }
@@ -643,6 +654,15 @@ func isWriteSite(site int) bool {
 // that looks like the one it loaded (ABA).  After the k windows, or when nobody is left to feed
 // them, the tail chooser (bounded-preemption enumeration / random) takes over.
 type starveChooser struct {
+	// stall > 0: after the windows the victim runs on until it has passed stall compare-and-swap
+	// operations and is still inside its call - it has published (or failed to publish) its update
+	// and has its follow-up steps (close, hand-over to a helper, a second write) ahead of it;
+	// there the tail takes over, so that whole and partial calls of the others overlap the gap
+	// between a compare-and-swap and what follows it
+	stall, passed  int
+	tailStarted    bool
+	lastSite       int
+	lastCall       int
 	victim, k, m, lead int
 	tail               chooser
 	r                  *runner
@@ -708,6 +728,19 @@ func (c *starveChooser) next(step, last int, le bool, allowed []int) int {
 			continue
 		}
 		v := c.victim
+		if c.w >= c.k && c.stall > 0 && contains(allowed, v) {
+			if isCASSite(c.lastSite) && r.inCall[v] && r.callIdx[v] == c.lastCall {
+				c.passed++
+			}
+			c.lastSite = 0
+			if c.passed < c.stall {
+				c.lastSite, c.lastCall = r.site[v], r.callIdx[v]
+				if !r.inCall[v] {
+					c.lastSite = 0
+				}
+				return v
+			}
+		}
 		if c.w >= c.k || !contains(allowed, v) {
 			c.inTail = true
 			break
@@ -731,10 +764,26 @@ func (c *starveChooser) next(step, last int, le bool, allowed []int) int {
 		c.w++
 		return v
 	}
+	if c.stall > 0 && !c.tailStarted {
+		// the stall IS the preemption of the victim: the first step of the tail goes to one of
+		// the others (each of them in turn) and is not charged to the tail's budget
+		c.tailStarted = true
+		var others []int
+		for _, t := range allowed {
+			if t != c.victim {
+				others = append(others, t)
+			}
+		}
+		if len(others) > 0 {
+			return c.tail.next(step, last, false, others)
+		}
+	}
+	c.tailStarted = true
 	return c.tail.next(step, last, le, allowed)
 }
 
 type starveShape struct {
+	stall   bool // k counts compare-and-swap operations passed by the victim, not windows
 	name    string
 	victim  []callT
 	lead    []callT // feeder's calls before the victim starts
@@ -745,18 +794,26 @@ type starveShape struct {
 // the shapes of the directed search: victim | feeder | third goroutine.  The feeder has exactly
 // lead + k*m calls, so after the prefix only the victim and the third goroutine are live.
 var starveShapes = []starveShape{
-	{"starve:inc", []callT{add(1)}, nil, []callT{add(1)}, []callT{add(1)}},
-	{"starve:inc/inc-dec", []callT{add(1)}, nil, []callT{add(1)}, []callT{add(1), add(-1)}},
-	{"starve:inc/wait", []callT{add(1)}, nil, []callT{add(1)}, []callT{wait}},
-	{"starve:inc@1", []callT{add(1)}, []callT{add(1)}, []callT{add(1)}, []callT{add(1)}},
-	{"starve:dec@2", []callT{add(-1)}, []callT{add(2)}, []callT{add(1)}, []callT{add(1)}},
-	{"starve:dec@2/wait", []callT{add(-1)}, []callT{add(2)}, []callT{add(1)}, []callT{wait}},
-	{"aba:inc@1/wait", []callT{add(1)}, []callT{add(1)}, []callT{add(-1), add(1)}, []callT{wait}},
-	{"aba:inc@1/inc", []callT{add(1)}, []callT{add(1)}, []callT{add(-1), add(1)}, []callT{add(1)}},
-	{"aba:inc-dec@1/wait", []callT{add(1), add(-1)}, []callT{add(1)}, []callT{add(-1), add(1)}, []callT{wait}},
+	{false, "starve:inc", []callT{add(1)}, nil, []callT{add(1)}, []callT{add(1)}},
+	{false, "starve:inc/inc-dec", []callT{add(1)}, nil, []callT{add(1)}, []callT{add(1), add(-1)}},
+	{false, "starve:inc/wait", []callT{add(1)}, nil, []callT{add(1)}, []callT{wait}},
+	{false, "starve:inc@1", []callT{add(1)}, []callT{add(1)}, []callT{add(1)}, []callT{add(1)}},
+	{false, "starve:dec@2", []callT{add(-1)}, []callT{add(2)}, []callT{add(1)}, []callT{add(1)}},
+	{false, "starve:dec@2/wait", []callT{add(-1)}, []callT{add(2)}, []callT{add(1)}, []callT{wait}},
+	{false, "aba:inc@1/wait", []callT{add(1)}, []callT{add(1)}, []callT{add(-1), add(1)}, []callT{wait}},
+	{false, "aba:inc@1/inc", []callT{add(1)}, []callT{add(1)}, []callT{add(-1), add(1)}, []callT{add(1)}},
+	{false, "aba:inc-dec@1/wait", []callT{add(1), add(-1)}, []callT{add(1)}, []callT{add(-1), add(1)}, []callT{wait}},
+	// the victim is stalled right after its k-th compare-and-swap: two zero crossings whose
+	// follow-up steps overlap, a waiter in between (feeder = its "window" calls once)
+	{true, "stall:inc-dec|inc-dec|wait", []callT{add(1), add(-1)}, nil, []callT{add(1), add(-1)}, []callT{wait}},
+	{true, "stall:inc-dec|inc-dec|wait-wait", []callT{add(1), add(-1)}, nil, []callT{add(1), add(-1)}, []callT{wait, wait}},
+	{true, "stall:inc-dec-inc-dec|dec-inc|wait", []callT{add(1), add(-1), add(1), add(-1)}, []callT{add(1)}, []callT{add(-1), add(1)}, []callT{wait}},
 }
 
 func (sh starveShape) progs(k int) [][]callT {
+	if sh.stall {
+		return [][]callT{sh.victim, append(append([]callT{}, sh.lead...), sh.window...), sh.tailThr}
+	}
 	feeder := append([]callT{}, sh.lead...)
 	for i := 0; i < k; i++ {
 		feeder = append(feeder, sh.window...)
@@ -997,6 +1054,9 @@ func encCase(c caseT) string {
 
 var readable = false
 
+// sparseObs: observe Count() only at positions with no Add in flight (see stepThread)
+var sparseObs = false
+
 type emitter struct {
 	out  *gal.Out
 	seen map[string]bool
@@ -1231,7 +1291,7 @@ func stress(seed uint64, iters int, secs float64, em *emitter, maxTraces int) in
 func main() {
 	seed := flag.Uint64("seed", 1, "seed")
 	outp := flag.String("out", "", "output prefix")
-	mode := flag.String("mode", "corpus", "corpus|random|pb|exhaustive|starve|randprog|replay|stress")
+	mode := flag.String("mode", "corpus", "corpus|random|pb|exhaustive|starve|randprog|replay|stress|deadline")
 	n := flag.Int("n", 100, "schedules per program (random), programs (randprog), iterations (stress)")
 	pre := flag.Int("pre", 2, "preemption bound (pb)")
 	only := flag.String("progs", "", "comma separated catalogue indices (default all)")
@@ -1246,10 +1306,17 @@ func main() {
 	writeOnly := flag.Bool("wo", false, "pb/starve: preempt only in front of writes")
 	shapes := flag.String("shapes", "", "starve: comma separated shape indices (default all)")
 	procs := flag.Int("procs", 1, "GOMAXPROCS of the scheduled modes (stress always uses the default)")
+	flag.BoolVar(&sparseObs, "sparseobs", false, "call Count() only when no Add is in flight (sources whose tie is broken)")
+	dms := flag.Int("dms", 300, "deadline: the timeout d in milliseconds")
 	siteMapFile := flag.String("sitemap", "", "canonical site table written by xlate_conc -sitemap")
 	flag.Parse()
 	loadSites(*sitesFile)
 	loadSiteMap(*siteMapFile)
+	if *mode == "deadline" {
+		loadSites(*sitesFile)
+		deadlineMode(*outp, *dms)
+		return
+	}
 	if *mode == "stress" {
 		var em *emitter
 		if *outp != "" {
@@ -1364,10 +1431,19 @@ func main() {
 			for k := *kmin; k <= *kmax; k++ {
 				name := fmt.Sprintf("%s k=%d", sh.name, k)
 				progs := withProbe(sh.progs(k))
+				if sh.stall && k > 4 {
+					break
+				}
 				mk := func(tail chooser) *starveChooser {
+					if sh.stall {
+						return &starveChooser{victim: 0, stall: k, lead: len(sh.lead), tail: tail}
+					}
 					return &starveChooser{victim: 0, k: k, m: len(sh.window), lead: len(sh.lead), tail: tail}
 				}
 				d := &dfsChooser{pre: *pre, writeOnly: *writeOnly}
+				if sh.stall && d.pre > 2 {
+					d.pre = 2 // three live goroutines with whole programs: the stall is the third preemption
+				}
 				cnt, steps := 0, 0
 				for {
 					d.begin()
